@@ -21,10 +21,10 @@ TOOL = 3
 
 
 class Schedule:
-    def __init__(self, seed: int, nthreads: int, d: int, horizon: int) -> None:
+    def __init__(self, seed: int, nthreads: int, d: int, horizon: int, at: set[int] | None = None) -> None:
         self.rng = random.Random(seed)
         self.n = nthreads
-        self.at = set(self.rng.sample(range(1, max(horizon, d + 1) + 1), d)) if d else set()
+        self.at = set(at) if at is not None else set(self.rng.sample(range(1, max(horizon, d + 1) + 1), d)) if d else set()
         self.events = [threading.Event() for _ in range(nthreads)]
         self.alive = [True] * nthreads
         self.cur = 0
@@ -101,10 +101,10 @@ class Scheduler:
         mon.free_tool_id(TOOL)
         self.started = False
 
-    def run(self, bodies: list, seed: int, d: int, horizon: int, join_timeout: float = 20.0) -> tuple[Schedule, bool]:
-        """bodies: list of zero-argument callables, one per thread. Returns (schedule, completed)."""
+    def run(self, bodies: list, seed: int, d: int, horizon: int, join_timeout: float = 20.0, at: set[int] | None = None) -> tuple[Schedule, bool]:
+        """bodies: list of zero-argument callables, one per thread. Returns (schedule, completed).  `at` fixes the preemption points."""
         n = len(bodies)
-        s = Schedule(seed, n, d, horizon)
+        s = Schedule(seed, n, d, horizon, at)
         self.current = s
 
         def worker(i: int) -> None:
